@@ -654,6 +654,8 @@ class Evaluator:
         g = None
         if isinstance(f, ast.Name) and f.id not in st.env and f.id not in self.closure_env:
             g = self.pkg.functions.get(self.pkg.resolve_name(self.module, f.id))
+        elif isinstance(f, ast.Name) and f.id in st.env and st.env[f.id][0] == "glob":
+            g = self.pkg.functions.get(st.env[f.id][1])            # a local name bound to a function: wrap = _wrap_to_360; wrap(x)
         elif isinstance(f, ast.Attribute) and isinstance(f.value, ast.Name) and f.value.id == "self" and self.fn.cls is not None and st.env.get("self") == ("param", "self"):
             g = self.pkg.find_method(self.fn.cls.qual, f.attr)
         elif isinstance(f, ast.Attribute) and isinstance(f.value, ast.Name) and f.value.id not in st.env:
@@ -790,6 +792,10 @@ class Evaluator:
                 cur = st.env.get(nm)
                 if cur is not None and cur[0] == "list" and meth == "append" and len(v[2]) == 1:
                     st.env[nm] = ("list", cur[1] + (v[2][0],))
+                elif cur is not None and cur[0] == "list" and meth == "insert" and len(v[2]) == 2 and is_int(v[2][0]) and 0 <= v[2][0][1] <= len(cur[1]) \
+                        and not any(x[0] == "star" for x in cur[1][:v[2][0][1]]):
+                    k_ = v[2][0][1]
+                    st.env[nm] = ("list", cur[1][:k_] + (v[2][1],) + cur[1][k_:])
                 elif cur is not None and cur[0] == "list" and meth == "extend" and len(v[2]) == 1:
                     a = v[2][0]
                     st.env[nm] = ("list", cur[1] + (a[1] if plain_seq(a) else (("star", a),)))
